@@ -47,6 +47,11 @@ class Tracer:
         self.decl_hook = decl_hook
         self.n = 0
         self.raw = []  # raw python values of bind events (for override fns)
+        # called after an event has been recorded, with that event: may raise -- this is how a
+        # subscriber of a probe that fails on that event is put into the model (the failure
+        # surfaces in the probed program at the very point of the event)
+        self.after = None
+        self.decl_attempt = None
 
     # -- stack discipline -----------------------------------------------------
     def _touch(self, a):
@@ -68,6 +73,10 @@ class Tracer:
         )
         self.raw.append(rawval)
 
+    def _after(self):
+        if self.after is not None:
+            self.after(self.events[-1])
+
     # -- called by generated code ---------------------------------------------
     def enter(self, fn):
         parent = self.stack[-1] if self.stack else None
@@ -78,11 +87,21 @@ class Tracer:
         self._ev(a, "enter")
         return a
 
+    def entered(self, a):
+        """First statement inside the activation's try block: the entry event is delivered from
+        inside the region that the exit event closes."""
+        if self.after is not None:
+            for ev in reversed(self.events):
+                if ev["act"] == a.id and ev["k"] == "enter":
+                    self.after(ev)
+                    break
+
     def b(self, a, var, value):
         self._touch(a)
         if self.hook is not None:
             value = self.hook(a.fn, var, value, a, self)
         self._ev(a, "bind", var, canon(value), value)
+        self._after()
         return value
 
     def decl(self, a, var):
@@ -91,7 +110,11 @@ class Tracer:
             v = self.decl_hook(a.fn, var, a, self)
             if v is not NOVALUE:
                 self._ev(a, "bind", var, canon(v), v)
+                self._after()
                 return v
+        if self.decl_attempt is not None:
+            # nobody supplied it; overriders aimed at the declaration were asked all the same
+            self.decl_attempt(a.fn, var, a)
         raise ModelNameError(a.fn, var)
 
     def value(self, a, v):
@@ -99,18 +122,21 @@ class Tracer:
         if self.hook is not None:
             v = self.hook(a.fn, "#value", v, a, self)
         self._ev(a, "value", "#value", canon(v), v)
+        self._after()
         return v
 
     def fall(self, a):
         self._touch(a)
         self._ev(a, "value", "#value", None, None)
         self.events[-1]["fall"] = True
+        self._after()
 
     def error(self, a, e):
         self._touch(a)
         # (the exception object itself is not kept: its traceback would keep
         # frames -- and suspended generators -- alive)
         self._ev(a, "error", "#error", canon(e), None)
+        self._after()
 
     def exit(self, a):
         self._touch(a)
@@ -118,20 +144,24 @@ class Tracer:
         a.ended = True
         if a in self.stack:
             self.stack.remove(a)
+        self._after()
 
     def loop(self, a, names):
         self._touch(a)
         self._ev(a, "loop", list(names))
+        self._after()
 
     def endloop(self, a, names):
         self._touch(a)
         self._ev(a, "endloop", list(names))
+        self._after()
 
     def yld(self, a, v):
         self._touch(a)
         if self.hook is not None:
             v = self.hook(a.fn, "#yield", v, a, self)
         self._ev(a, "yield", "#yield", canon(v), v)
+        self._after()
         a.suspended = True
         if a in self.stack:
             self.stack.remove(a)
@@ -142,4 +172,5 @@ class Tracer:
         if self.hook is not None:
             v = self.hook(a.fn, "#receive", v, a, self)
         self._ev(a, "receive", "#receive", canon(v), v)
+        self._after()
         return v
